@@ -7,6 +7,8 @@ CONSTANTS Links = {3}
   Ver = 7
   Running = TRUE
   Its = TRUE
-INVARIANT NoFalseAlarm
+  Faults = FALSE
+  Ob = FALSE
+INVARIANTS NoFalseAlarm
 VIEW AbsView
 CHECK_DEADLOCK FALSE
